@@ -25,7 +25,7 @@ def make_case(rng, thorough=False, ports=False):
                 'strip': rng.random() < 0.7, 'cuda': False, 'reuse': True, 'ports': True}
     return {'circuit': base64.b64encode(pickle.dumps(c)).decode(), 'dseed': rng.randint(0, 2**31 - 1), 'sseed': rng.randint(0, 2**31 - 1),
             'sims': rng.choice([1, 2, 4]), 'polind': rng.random() < 0.5, 'caps': rng.choice([16, 32]), 'shift': rng.choice([0.5, 3, 7.5, 64, -2.5]),
-            'scale': rng.choice([2, 4, 0.5, 8]), 'strip': rng.random() < 0.25, 'cuda': rng.random() < 0.2, 'reuse': rng.random() < 0.3}
+            'scale': rng.choice([2, 4, 0.5, 8, 2.0 ** -12, 2.0 ** -18, 1024.0]), 'strip': rng.random() < 0.25, 'cuda': rng.random() < 0.2, 'reuse': rng.random() < 0.3}
 
 
 def simulate(case, shift=0.0, scale=1.0, caps=None, ports_only=False):
